@@ -228,28 +228,31 @@ Section WalkerP.
   Qed.
 
   (* ---- loops over words, case ---- *)
-  Definition wparts (c : ctx) (l : list tree) : list verdict := flat_map (fun w => r_wp (ev w) false c) l.
+  Definition wpartsb (b : bool) (c : ctx) (l : list tree) : list verdict := flat_map (fun w => r_wp (ev w) b c) l.
+  Definition wparts (c : ctx) (l : list tree) : list verdict := wpartsb false c l.
 
   Lemma wparts_kr (k : string) c kd ss fs ks :
     wparts_of k (kr_of ks) c = wparts c (children k (T kd ss fs ks)).
   Proof.
-    unfold wparts_of, wparts. rewrite (lbl_children k kd ss fs ks).
+    unfold wparts_of, wparts, wpartsb. rewrite (lbl_children k kd ss fs ks).
     rewrite flat_map_concat_map, map_map, <- flat_map_concat_map. reflexivity.
   Qed.
 
   Lemma walk_for c ss fs ks : let t := T $"for" ss fs ks in
     let cb := body_ctx c (match child "body" t with Some x => changes_directory x | None => false end) in
-    walk c t = combine (need cb (child "body" t) :: wparts c (children "words" t) ++ redirs_of c t).
+    walk c t = combine (need cb (child "body" t) :: wpartsb true c (children "words" t) ++ redirs_of c t).
   Proof.
     intros t cb. subst t cb. open_node. rewrite (moves_kr "body" $"for" ss fs).
-    rewrite (need_kr "body" _ $"for" ss fs), (wparts_kr "words" c $"for" ss fs), (redirs_kr c $"for" ss fs). reflexivity.
+    rewrite (need_kr "body" _ $"for" ss fs), (redirs_kr c $"for" ss fs), (lbl_children "words" $"for" ss fs ks).
+    unfold wpartsb. rewrite flat_map_concat_map, map_map, <- flat_map_concat_map. reflexivity.
   Qed.
   Lemma walk_select c ss fs ks : let t := T $"select" ss fs ks in
     let cb := body_ctx c (match child "body" t with Some x => changes_directory x | None => false end) in
-    walk c t = combine (need cb (child "body" t) :: wparts c (children "words" t) ++ redirs_of c t).
+    walk c t = combine (need cb (child "body" t) :: wpartsb true c (children "words" t) ++ redirs_of c t).
   Proof.
     intros t cb. subst t cb. open_node. rewrite (moves_kr "body" $"select" ss fs).
-    rewrite (need_kr "body" _ $"select" ss fs), (wparts_kr "words" c $"select" ss fs), (redirs_kr c $"select" ss fs). reflexivity.
+    rewrite (need_kr "body" _ $"select" ss fs), (redirs_kr c $"select" ss fs), (lbl_children "words" $"select" ss fs ks).
+    unfold wpartsb. rewrite flat_map_concat_map, map_map, <- flat_map_concat_map. reflexivity.
   Qed.
 
   (* the items of a case in order, each in the directory the earlier fall-through items leave *)
@@ -366,7 +369,7 @@ Section WalkerP.
     if str_eqb k $"heredoc" then
       match flag "quoted" t with Some false => rawscan c (attr_d "content" t) | _ => [] end
     else
-      match child "target" t with Some w => r_wp (ev w) false c | None => [] end ++
+      match child "target" t with Some w => r_wp (ev w) (str_eqb (attr_d "op" t) HERESTRING_OP) c | None => [] end ++
       (if snd c then [] else
          match redirect_check (attr_d "op" t)
                  (match child "target" t with Some w => attr_d "value" w | None => [] end)
@@ -413,13 +416,23 @@ Section WalkerP.
     if existsb is_pure_cmdsub (skipn (S (length ws - length tokens)) (children "words" t))
     then (if injrisk c tokens then [Ask] else []) else [].
 
+  (* quoted variable-name arguments of test / [ / read / printf -v: scanned as raw strings *)
+  Definition cmd_names (c : ctx) (t : tree) : list verdict :=
+    let ws := cmd_words t in
+    let tokens := skip_assignments ws in
+    name_scans astr c (match tokens with b :: _ => b | [] => [] end) ws (length ws - length tokens) 0 (children "words" t).
+
+  (* an "ask" for every word of the assignment prefix that sets a variable deciding what runs (PATH, LD_PRELOAD, ...) *)
+  Definition cmd_env (t : tree) : list verdict :=
+    let ws := cmd_words t in env_asks (length ws - length (skip_assignments ws)) 0 ws.
+
   Lemma walk_command c ss fs ks : let t := T $"command" ss fs ks in
-    walk c t = combine (wparts c (children "words" t) ++ cmd_inj c t ++ redirs_of c t ++ cmd_proper c t).
+    walk c t = combine (wparts c (children "words" t) ++ cmd_env t ++ cmd_names c t ++ cmd_inj c t ++ redirs_of c t ++ cmd_proper c t).
   Proof.
     intro t. subst t. open_node.
     rewrite (redirs_kr c $"command" ss fs), (lbl_children "words" $"command" ss fs ks).
-    unfold wparts, cmd_inj, cmd_proper, cmd_words.
-    rewrite !map_map. cbn [fst snd].
+    unfold wparts, wpartsb, cmd_env, cmd_names, cmd_inj, cmd_proper, cmd_words.
+    rewrite !map_map. cbn [fst snd]. rewrite map_id.
     rewrite skipn_map, existsb_map_pairs.
     rewrite (flat_map_concat_map _ (map _ _)), map_map, <- flat_map_concat_map. cbn [snd].
     reflexivity.
